@@ -523,9 +523,51 @@ def build_tiny(rng, kind, turn=0):
 
 # ------------------------------------------------------------------------------------------ big family
 
+MEGA_EVERY = 240   # kinds are multiples of 3: kind % 240 == 9 -> 3 cases in the quick tier, ~110 in the thorough tier
+MEGA_TEXT = 3 << 19  # 1.5 MiB of text per table: beyond any plausible read buffer / chunk size of a text parser
+
+
+def build_mega(rng, kind):
+    """Every one of the seven text files longer than 1 MiB (seeded C17-8: a parser that stops reading after a size
+    hint).  Nodes and edges get there by row count (no metadata column in the edges file), the other tables by
+    metadata on a few hundred rows."""
+    n = rng.randint(60000, 64000)
+    m = RowModel(float(rng.choice([16, 100, 1000])))
+    npop, nind = rng.choice([3, 129]), rng.choice([5, 257])
+    n_int = rng.randint(2, 6)
+    times = [0.0] * (n - n_int) + [float(j + 1) for j in range(n_int)]
+    m.nodes = [(1 if u < n - n_int else 0, times[u], u % npop if u % 3 else NULL, u % nind if u % 5 else NULL, b"")
+               for u in range(n)]
+    edges = []
+    for u in range(n - 1):
+        p = n - n_int + (u % n_int) if u < n - n_int else u + 1
+        edges.append((0.0, m.L, p, u, b""))
+    m.edges = sorted(edges, key=sort_edges_key(m))
+
+    def blob(rows):
+        return wide_bytes(rng, MEGA_TEXT * 3 // 4 // max(rows, 1) + rng.randint(1, 57))
+
+    m.populations = [(blob(npop),) for _ in range(npop)]
+    m.individuals = [(0, (), (), blob(nind)) for _ in range(nind)]
+    pos = sorted(rng.sample(range(int(m.L)), min(int(m.L), rng.randint(8, 16))))
+    m.sites = [(float(x), rng.choice(["A", "", "GT"]), blob(len(pos))) for x in pos]
+    nmut = rng.randint(200, 300)
+    leaves = rng.sample(range(n - n_int), nmut)
+    m.mutations = [(k % len(pos), u, rng.choice(["C", "", "TTT"]), NULL, None, blob(nmut)) for k, u in enumerate(leaves)]
+    m.mutations.sort(key=lambda r: r[0])
+    nmig = rng.randint(100, 200)
+    m.migrations = sorted([(0.0, m.L, rng.randrange(n), rng.randrange(npop), npop - 1, float(rng.randint(0, 9)), blob(nmig))
+                           for _ in range(nmig)], key=lambda g: g[5])
+    m.tags.add("big")
+    m.tags.add("big:every-file>1MiB")
+    return m
+
+
 def build_big(rng, kind):
     """>= 256 rows in every table that is referenced by id (3-digit ids, > 127 / > 255 populations and individuals),
     one individual with hundreds of parents / location values, one entry of every ragged column beyond 64 KiB."""
+    if kind % MEGA_EVERY == 9:
+        return build_mega(rng, kind)
     n = rng.randint(275, 330)
     m = RowModel(float(rng.choice([16, 100, 1000])))
     npop = rng.choice([129, 257, 300])
